@@ -19,10 +19,11 @@ EXPLANATION = (
     "no global and mutate no argument other than their own per-feature column, a pickled copy in the "
     "pool); R-no-iter-mutation (no loop iterates a self list that its body mutates, directly or "
     "through a called method: the carving loop and the removal loops iterate copies); R-key-local "
-    "(inside per-feature code every access to a per-feature dict uses the current feature as key)."
+    "(inside per-feature code every access to a per-feature dict uses the current feature as key; the "
+    "carving of a feature rebinds no attribute of self; no frame-wide replace inside a per-feature loop)."
 )
 NOT_DECIDED = "multiprocessing's own behaviour; effect of the hash seed beyond iteration order"
-FLOORS = {"R-seq-par-agree": 3, "R-pool-keyed": 6, "R-worker-pure": 3, "R-no-iter-mutation": 3, "R-key-local": 5}
+FLOORS = {"R-seq-par-agree": 3, "R-pool-keyed": 6, "R-worker-pure": 3, "R-no-iter-mutation": 3, "R-key-local": 8}
 
 LV = "<feature>"
 
@@ -383,7 +384,51 @@ def rule_key_local(ctx):
             ctx.ob(R, construct(fi, f"all {n} accesses to per-feature tables use the current feature as key"), True, loc(fi))
 
 
+def rule_feature_isolated(ctx):
+    """Carving one feature changes nothing that the carving of another feature reads: the per-feature
+    code rebinds no attribute of self (shared configuration such as max_n_mod), and inside a
+    `for feature in ...` loop no operation is applied to the whole frame instead of the feature's column."""
+    R = "R-key-local"
+    repo, eng = ctx.repo, ctx.effects
+    for cname in ("BinaryCarver", "ContinuousCarver"):
+        ci = repo.find_class(cname)
+        fi, summ = eng.method_summary(ci, "_carve_feature", None)
+        writes = [e for e in summ.events if e.kind == "write" and e.path[0] == "self"]
+        seen = set()
+        for e in writes:
+            if (e.fn, e.expr) in seen:
+                continue
+            seen.add((e.fn, e.expr))
+            ctx.ob(R, f"{cname}._carve_feature::{e.fn}::rebinds {path_str(e.path)}::{e.expr}", False, e.where,
+                   "per-feature code changes a shared attribute: features carved afterwards (hash-seed dependent order) see another configuration")
+        if not writes:
+            ctx.ob(R, f"{cname}._carve_feature::rebinds no attribute of self", True, loc(fi))
+    n = 0
+    for fi in repo.all_functions():
+        if "/selectors/" in fi.module.relpath:
+            continue
+        cfg = None
+        for c in walk_no_nested(fi.node):
+            if not (isinstance(c, ast.Call) and isinstance(c.func, ast.Attribute) and c.func.attr in ("replace", "fillna", "where", "mask")):
+                continue
+            recv = c.func.value
+            if not (isinstance(recv, ast.Name) and recv.id in ("x_copy", "X", "X_dev", "x_dev_copy")):
+                continue
+            cfg = cfg or cfg_of(ctx, fi)
+            loops = [l for l in cfg.enclosing_loops(c) if isinstance(l, ast.For) and isinstance(l.target, ast.Name) and l.target.id == "feature"]
+            if not loops:
+                continue
+            n += 1
+            a0 = c.args[0] if c.args else None
+            keyed = isinstance(a0, (ast.Dict, ast.DictComp)) and "feature" in unparse(a0.keys[0] if isinstance(a0, ast.Dict) and a0.keys else getattr(a0, "key", a0))
+            ctx.ob(R, construct(fi, f"`{short(c, 60)}` inside the per-feature loop is restricted to the feature's column"), keyed, loc(fi, c),
+                   "" if keyed else "a frame-wide operation inside a per-feature loop rewrites the other features' columns: the result depends on which features are fitted together")
+    if n == 0:
+        ctx.ob(R, "no frame-wide replace / fillna inside a per-feature loop", True, "")
+
+
 def check(ctx):
+    rule_feature_isolated(ctx)
     workers = rule_seq_par(ctx)
     rule_pool_keyed(ctx, workers)
     rule_worker_pure(ctx, workers)
@@ -404,6 +449,8 @@ MUTANTS = [
     M("worker appends the nan modality to the shared order", [(F_BASE, "        nan_value = feature_values.get_group(str_nan)\n", "        if not feature_values.contains(str_nan):\n            feature_values.append(str_nan)\n        nan_value = feature_values.get_group(str_nan)\n")], "R-worker-pure"),
     M("carving loop iterates self.features while removing", [(F_BC, "        all_features = self.features[:]  # (features are being removed from self.features)\n        for n, feature in enumerate(all_features):", "        all_features = self.features  # (features are being removed from self.features)\n        for n, feature in enumerate(self.features):")], "R-no-iter-mutation"),
     M("QualitativeDiscretizer removes while iterating", [("AutoCarver/discretizers/discretizers.py", "        all_features = self.features[:]  # features are being removed from self.features\n        for feature in all_features:", "        for feature in self.features:")], "R-no-iter-mutation", "QualitativeDiscretizer"),
+    M("per-feature search clamps the shared max_n_mod", [(F_BC, "            # all possible consecutive combinations\n            combinations = consecutive_combinations(raw_order, self.max_n_mod, min_group_size=1)\n\n            # getting most associated combination", "            self.max_n_mod = min(self.max_n_mod, len(order))\n            # all possible consecutive combinations\n            combinations = consecutive_combinations(raw_order, self.max_n_mod, min_group_size=1)\n\n            # getting most associated combination")], "R-key-local", "rebinds"),
+    M("rare values replaced frame-wide inside the per-feature loop", [("AutoCarver/discretizers/utils/qualitative_discretizers.py", "                x_copy.loc[x_copy[feature].isin(values_to_group), feature] = self.str_default\n", "                x_copy = x_copy.replace(values_to_group, self.str_default)\n")], "R-key-local", "restricted to the feature"),
     M("labels of one feature read with another feature's key", [(F_BASE, "    # feature's labels associated to each quantile\n    feature_values = values_orders[feature]\n", "    # feature's labels associated to each quantile\n    feature_values = values_orders[sorted(values_orders)[0]]\n")], "R-key-local", "transform_quantitative_feature"),
 ]
 BENIGN = [
